@@ -4,6 +4,11 @@ V = os.path.dirname(os.path.dirname(os.path.abspath(__file__)))
 props = [json.loads(l) for l in open(os.path.join(V, "properties.jsonl"))]
 
 CLAIMED = {
+    "C06": dict(
+        text="Coq theorems about the model of passive matching (RunnerAnalytics increments, _process_traded, _calculate_process_traded, _sort_orders): a lone resting order over ANY sequence of traded amounts is filled exactly min(remaining, max(0, E/2 - queue)) when halves are whole pennies and within half a penny per fill otherwise (every tie-break), nothing before the queue has traded; one order consumes only eligible prices, never drives volume negative, twice its fill is covered by what it consumed; any number of orders sharing one copy of the traded volume are filled in total at most half of it (+ half a penny per fill); processing order = lays by descending, backs by ascending price, MOC last (Permutation + StronglySorted); Pending orders are never matched; a runner seen first reports no increment. Tie to code: simulation-model correspondence on the real FlumineSimulation (1-3 strategies, isolation on/off) evaluated in Coq + an independent ledger of traded volume built from the raw updates checked against every passive fragment.",
+        note="Trusted: Coq kernel + vm_compute; harness/impl/simlib.py; exact-decimal model with explicit tie-break (Python rounds 0.025 -> 0.03: that is the stated half-penny slack); simulation_available_prices=True is outside (documented double counting). Print Assumptions: closed under the global context.",
+        technique="Coq proof (refinement of the per-price loop to a closed form, induction over orders sharing a dict) + differential correspondence evaluated in Coq",
+        ref="DESIGN.md §5 C06"),
     "C05": dict(
         text="Coq theorems about the model of SimulatedOrder.place for every book (any levels, gaps, empty sides), price, size and tie-break: an ordinary order's arrival fragments are exactly a prefix of the opposing ladder, at the limit or better, level by level no larger than offered, in total <= its size; fill-or-kill ends with nothing remaining and 0 or >= min-fill matched, its kept VWAP (2 dp, as the exchange reports it) satisfies the limit; best-price-execution off + priced through the best => lapse with no fill; passive fills are at the order's own limit. Tie to code: the whole simulation model (Sim.v/SimLoop.v) is compared observation-by-observation with the real FlumineSimulation on generated scenarios (evaluated in Coq, both tie-breaks), and an independent checker of the property runs on the implementation's fragments.",
         note="Trusted: Coq kernel + vm_compute; harness/impl/simlib.py (synthetic Betfair stream files -> real FlumineSimulation, observation by a scripted strategy); exact-decimal model of the float arithmetic; starting-price fills are outside the limit clause (C04). Print Assumptions: closed under the global context.",
